@@ -1073,7 +1073,7 @@ class Columns(Widget, WidgetContainerMixin, WidgetContainerListContentsMixin):
         see :meth:`Widget.move_cursor_coords` for details
         """
         try:
-            widths, _, size_args = self.get_column_sizes(size, focus=True)
+            widths, heights, size_args = self.get_column_sizes(size, focus=True)
         except Exception as exc:
             raise ValueError(self.contents, size, col, row) from exc
 
@@ -1098,6 +1098,9 @@ class Columns(Widget, WidgetContainerMixin, WidgetContainerListContentsMixin):
         if best is None:
             return False
         i, x, end, w = best
+        if not 0 <= row < heights[i]:
+            # below a column that is shorter than the tallest one: nothing of that widget is drawn there
+            return False
         if hasattr(w, "move_cursor_to_coords"):
             if isinstance(col, int):
                 move_x = min(max(0, col - x), end - x - 1)
